@@ -146,6 +146,20 @@ CHECKS = {
                   'obtains the first item; multiprocessing queues as instream only through the theorem (queue assumptions); every '
                   'run self-tests that all clocks the code reads are virtual.',
         ref='§5 C19', engine='E1-detsched+lean'),
+    'C10': dict(
+        technique='Lean 4 proof (inductive invariants, counting argument, decreasing measure + progress over an LTS model of the repaired tee Fork.__next__ with one action per shared-state access) + schedule-controlled 1:1 trace replay of the real code at line-level preemption',
+        text='C10_same_stream / C10_pull_once / C10_lookahead (pulled <= received_f + buffer_size + 2, attained) / C10_window / '
+             'C10_lock_released / C10_progress / C10_measure / C10_terminates / C10_no_wedge / C10_deadlock_free / '
+             'C10_fair_termination (no infinite weakly fair execution) hold for every action list of the tee '
+             'model: any number of forks, any buffer_size (>= 2 for progress), any source length and both endings, preemption '
+             'between any two shared-state accesses of Fork.__next__. Tie on every run: the real tee() runs under the '
+             'deterministic scheduler with a scheduling point at every line of Fork.__next__; every access to the source, head '
+             'cell, box next/count, source lock, box locks and window queue is observed via harness-owned objects and replayed '
+             '1:1 through Tee.step by drv tee (payloads compared, rest state compared); monitors evaluate stream/ending/'
+             'pull-once/look-ahead/hang/lock-released on each run. Pinned code violates C10 (F8, F9, F10; fixes/F8,F9,F10).',
+        note=E1 + 'liveness = progress, bound on non-stutter steps, deadlock freedom and termination of every weakly fair execution '
+             'of the model (that the runtime scheduler is weakly fair is an assumption); line-level (not bytecode-level) atomicity.',
+        ref='§5 C10', engine='E1-detsched+lean'),
 }
 
 CHECKS['C06'] = dict(
